@@ -232,7 +232,7 @@ more('C10', 'accumulator rule on sweep rewrites', 'C10.j a loop that rebuilds a 
 more('C11', 'repr/equality field coherence', 'C11.o __repr__ of every JSON-serializable value-equality class reads each field its equality reads (derived / fixed fields tabled)')
 more('C12', 'dimension rule on the sub-circuit matrix product; interpretation of rescoping on model keys',
      'C12.q CircuitOperation._unitary_ brings the matrices of the body to one dimension before multiplying; C12.r moments see keys of earlier moments only, sub-circuits keep enclosing keys by path length and record path + parent path')
-more('C13', 'interpretation of CliffordGate.__pow__ over the model group Z', 'C13.m square-and-multiply returns the k-th power for every integer |k| <= 40')
+more('C13', 'interpretation of CliffordGate.__pow__ over the model group Z; must-pass-through of the global shift to the phase carrier (with residue reasoning on exponent % 2 ladders)', 'C13.m square-and-multiply returns the k-th power for every integer |k| <= 40; C13.n every method of the CH form that takes global_shift updates omega from it on every normally ending path')
 more('C14', 'dependence rule on the phase of PauliString powers; path rule on empty decompositions', 'C14.n every non-refusing return of PauliString.__pow__ depends on the phase of the coefficient; C14.o a decomposition path that explicitly hands back no operation has tested a phase-carrying field')
 more('C16', 'tags-with-untagged rule in the circuit writer; subclass-recognition rule in sweep converters',
      'C16.u a branch that serializes `<op>.untagged` also looks at `<op>.tags`; C16.v where a sweep class with an overriding subclass (Zip <- ZipLongest) is recognised, the subclass is tested too')
